@@ -12,7 +12,7 @@ REQUIRED_MONITORS = ["mixed-dtype MAC", "range@MAC", "range@MPC", "range@MPD", "
 CLASSES = ["generic", "nearly_collinear_1e-8", "nearly_collinear_1e-3", "collinear", "collinear_unit_normalised", "collinear_zero_components",
            "collinear_halves", "constant", "isotropic_reference", "sets"]
 ALL_STATES = ["class:" + c for c in CLASSES] + ["n=2", "n>=33"]
-REQUIRED_STATES = ["class:" + c for c in CLASSES] + ["n=2"]
+REQUIRED_STATES = ["class:" + c for c in CLASSES] + ["n=2", "sets with more shapes than components"]
 RULE = ("icontract postconditions (range, shape, finiteness) attached to the real gen.MAC/MPC/MPD/MCF/MSF and evaluated on every call made by "
         "the workload; metamorphic scale-invariance under complex factors |c| in [1e-6,1e6]; exactness on complex multiples of real vectors; "
         "input classes listed in abstract_states_seen, 2..64 components; non-trivial = shape with >= 2 distinct component magnitudes; "
@@ -273,6 +273,11 @@ def iso(rng, n):
 def run_sets(ctx, rng):
     n = int(rng.integers(2, 40))
     nx, na = int(rng.integers(1, 6)), int(rng.integers(1, 6))
+    if rng.random() < 0.25:
+        # more shapes than components (many modes identified at a few sensors): rows stay components, columns stay shapes
+        n = int(rng.integers(2, 5))
+        nx, na = int(rng.integers(n + 1, 9)), int(rng.integers(n + 1, 9))
+        ctx.state("sets with more shapes than components")
     X = rng.standard_normal((n, nx)) + 1j * rng.standard_normal((n, nx))
     A = rng.standard_normal((n, na)) + 1j * rng.standard_normal((n, na))
     if rng.random() < 0.5 and na >= 1:
@@ -295,6 +300,14 @@ def run_sets(ctx, rng):
                 ctx.check(abs(np.asarray(M)[i, j] - e) <= 1e-10, "MAC:entry_value", lambda: f"MAC[{i},{j}]={np.asarray(M)[i,j]!r} expected {e!r}")
     mcf = call(ctx, "MCF", X)
     ctx.check(np.shape(mcf) == (nx,), "MCF:shape", lambda: f"MCF of {nx} shapes has shape {np.shape(mcf)}")
+    if nx >= 2:
+        c = rng.uniform(0.05, 20, nx) * rng.choice([-1, 1], nx)
+        den = np.abs(np.sum(X * X, axis=0)) / np.sum(np.abs(X) ** 2, axis=0)
+        if np.all(den > 1e-3):
+            from pyoma2.functions import gen as G_
+            msf = G_.MSF(X, X * c[None, :])
+            ctx.ev("set@MSF")
+            ctx.check(np.shape(msf) == (nx,) and np.allclose(msf, c, rtol=1e-9), "MSF:set_of_shapes", lambda: f"MSF(V[{n}x{nx}], V*c) = {msf!r}, factors {c}")
     ctx.nontrivial(("sets", n, nx, na))
     ctx.state("class:sets")
 
